@@ -78,3 +78,27 @@ PROPS["C10"] = {
          "params": {"quick": {"FAMS": 2, "QUALS": 1}, "thorough": {"FAMS": 2, "QUALS": 2}}},
     ],
 }
+
+PROPS["C15"] = {
+    "files": ["region/fakes.go", "region/c15_compressor.go"],
+    "claim": "With an abstract lossless codec (nothing assumed but Decode(Encode(x)) == x): every payload of up to BUFS buffers x S bytes, "
+             "for chunk size CHUNK (below, equal to and above the payload), is written by compressCellblocks as one Hadoop block whose "
+             "chunks hold exactly ChunkLen bytes except the last, and decompressCellblocks returns the identical bytes; every conforming "
+             "server stream of up to B blocks x C chunks decompresses to the concatenated payload; a stream truncated inside a block "
+             "yields an error; arbitrary bytes never panic or spin.",
+    "outside": "golang/snappy itself and the real chunk size 218421 (the chunking arithmetic is checked for small symbolic chunk sizes); "
+               "corruptions that no implementation can detect (snappy blocks carry no checksum; a multi-block stream cut at a block "
+               "boundary is a valid shorter stream); payloads beyond the bound; allocations beyond ALLOC bytes",
+    "assumptions": ["codec contract: Encode output arbitrary (<= ENC bytes), Decode inverts Encode on its outputs and is arbitrary elsewhere",
+                    "allocation sizes taken from the wire are bounded by ALLOC (larger ones are outside the claim)"],
+    "jobs": [
+        {"name": "compress_roundtrip", "pkg": "region", "entry": "VerifCompressRoundTrip", "reach": ["roundtrip"],
+         "params": {"quick": {"CHUNK": 2, "ENC": 2, "BUFS": 3, "S": 3}, "thorough": {"CHUNK": 3, "ENC": 2, "BUFS": 3, "S": 5}}},
+        {"name": "compress_roundtrip_bigchunk", "pkg": "region", "entry": "VerifCompressRoundTrip", "reach": ["roundtrip"],
+         "params": {"quick": {"CHUNK": 16, "ENC": 2, "BUFS": 2, "S": 3}, "thorough": {"CHUNK": 6, "ENC": 3, "BUFS": 3, "S": 4}}},
+        {"name": "decompress_conforming", "pkg": "region", "entry": "VerifDecompressConforming", "reach": ["conforming", "truncated"],
+         "params": {"quick": {"ENC": 1, "B": 2, "C": 1, "S": 2}, "thorough": {"ENC": 2, "B": 2, "C": 2, "S": 2}}},
+        {"name": "decompress_arbitrary", "pkg": "region", "entry": "VerifDecompressArbitrary", "reach": ["accepted"],
+         "params": {"quick": {"ENC": 2, "N": 14}, "thorough": {"ENC": 2, "N": 24}}},
+    ],
+}
